@@ -33,6 +33,7 @@ UNIT = {
         {'kind': 'item', 'src': S, 'path': 'struct Scope',
          'rewrites': [('RX', 'R8', r'contexts: RefCell<Vec<FeelContext>>,', 'pub contexts: Vec<FeelContext>,', 1)]},
         {'kind': 'vrs', 'file': 'scope/spec.vrs'},
+    ] + C.value_api('scope', P, A) + [
         {'kind': 'fn', 'src': X, 'path': 'impl FeelContext::fn get_entry', 'key': 'scope::FeelContext::get_entry',
          'props': P, 'auto_props': A, 'loops': 0, 'ret': 'r', 'body_prefix': PRE,
          'ensures': [('post', 'r is Some == self.0@.contains_key(*name)'), ('value', 'r is Some ==> *r->Some_0 == self.0@[*name]')]},
